@@ -41,3 +41,10 @@ def violation(clause, detail, **kw):
 
 def invalid(detail=""):
     return {"status": "invalid", "clause": None, "detail": detail, "nontrivial": False, "labels": []}
+
+
+class CaseHang(BaseException):
+    """raised by the runner's wall-clock watchdog (vf.run._run_guarded)"""
+
+
+WATCHDOG = {"fired": False}
